@@ -515,7 +515,9 @@ var Scenarios = map[string]scenario{
 
 type temp float64
 
-func (t *temp) MarshalJSON() ([]byte, error) { return []byte(fmt.Sprintf("\"%.1fC\"", float64(*t))), nil }
+func (t *temp) MarshalJSON() ([]byte, error) {
+	return []byte(fmt.Sprintf("\"%.1fC\"", float64(*t))), nil
+}
 
 type reading struct {
 	Sensor string
